@@ -21,7 +21,9 @@ TITLE = "Distribution weights match their documented densities, limits and width
 LEVEL = "model_checking"
 TECHNIQUE = ("exhaustive enumeration of the full product of a finite per-branch alphabet "
              "(type x centre x PD x mode x npts x nsigmas x limit pattern) against scipy.stats densities")
-RULE = ("full product; a case is non-trivial when the call returns >= 2 points whose weights are not "
+RULE = ("part A: full product; part B: every (parameter, distribution spec[, second dispersed parameter]) through "
+        "direct_model.get_mesh and every setParam sequence up to depth 2 (thorough 3) on the SasView-style object, each "
+        "parameter's (values, weights) compared with its own declared settings; a case is non-trivial when the call returns >= 2 points whose weights are not "
         "all equal; distinct = distinct (type, centre, PD, mode, npts, nsigmas, limit-pattern) tuples")
 ASSUMPTIONS = [
     "scipy.stats norm/lognorm/gamma/laplace log-densities are the reference for the documented densities",
@@ -50,7 +52,7 @@ def cases(ctx):
             for pd in pds:
                 for mode in ("relative", "absolute"):
                     out.append({"type": t, "centre": c, "pd": pd, "mode": mode})
-    return out
+    return out + _iface_cases(ctx)
 
 
 def _npts(ctx):
@@ -120,7 +122,151 @@ def limits_for(pattern, g, c):
     raise ValueError(pattern)
 
 
+IFACE_MODELS = ["cylinder", "core_shell_sphere", "parallelepiped", "ellipsoid"]
+SV_SPECS = [("width", 0.15), ("width", 0.3), ("npts", 4), ("npts", 1), ("nsigmas", 2.0), ("type", "schulz"),
+            ("type", "rectangle"), ("value", 1.37)]
+
+
+def _iface_cases(ctx):
+    """part B: how the calling interfaces turn parameter settings into per-parameter (values, weights)"""
+    import itertools
+    out = []
+    for m in IFACE_MODELS:
+        out.append({"kind": "mesh", "model": m})
+        out.append({"kind": "sv", "model": m, "depth": 2 if ctx.quick else 3})
+    return out
+
+
+def _ref_dist(par, spec, value):
+    from .. import refmodel
+    t, n, w, ns = spec.get("type", "gaussian"), spec.get("npts", 0), spec.get("width", 0.0), spec.get("nsigmas", 3.0)
+    return refmodel.par_dist(par, t, n, w, ns, value)
+
+
+def _same(a, b):
+    a, b = np.asarray(a, float), np.asarray(b, float)
+    return a.shape == b.shape and np.array_equal(a, b)
+
+
+def _run_mesh(case, ctx):
+    """direct_model.get_mesh: every (parameter, type, npts, width) alone and together with a second dispersed parameter"""
+    import itertools
+    from sasmodels import core
+    from sasmodels.direct_model import get_mesh
+    r = R()
+    info = core.load_model_info(case["model"])
+    P = info.parameters
+    pd2 = [p for p in P.call_parameters if p.name in P.pd_2d]
+    specs = [{"type": t, "npts": n, "width": w, "nsigmas": ns}
+             for t in TYPES for n in (1, 3, 4) for w in (0.0, 0.2) for ns in (2.0, 3.0)]
+    other_spec = {"type": "rectangle", "npts": 2, "width": 0.1, "nsigmas": 1.0}
+    for dim in ("1d", "2d"):
+        active = P.pd_1d if dim == "1d" else P.pd_2d
+        for p in pd2:
+            for other in [None] + [o for o in pd2 if o is not p][:2]:
+                for spec in specs:
+                    pars = {p.name: (p.default if p.default else 10.0) * (1.0 if p.type != "orientation" else 1.0)}
+                    decl = {p.name: spec}
+                    if other is not None:
+                        decl[other.name] = other_spec
+                    for nm, sp in decl.items():
+                        w = sp["width"] * (30.0 if [q for q in pd2 if q.name == nm][0].type == "orientation" else 1.0)
+                        pars.update({nm + "_pd": w, nm + "_pd_n": sp["npts"], nm + "_pd_type": sp["type"],
+                                     nm + "_pd_nsigma": sp["nsigmas"]})
+                    desc = "get_mesh(%s, %r, dim=%r)" % (case["model"], pars, dim)
+                    try:
+                        mesh = get_mesh(info, pars, dim=dim)
+                    except (ZeroDivisionError, ValueError) as exc:
+                        # lognormal / schulz jitter about zero does not exist: an explicit refusal claims nothing
+                        if any(sp["type"] in ("lognormal", "schulz") and sp["npts"] > 1 and sp["width"] > 0 and nm in active
+                               and [q for q in pd2 if q.name == nm][0].type == "orientation" for nm, sp in decl.items()):
+                            r.ok(outcome="refused-zero-centre", branches=["iface-refused"])
+                            continue
+                        r.fail("%s raised %r" % (desc, exc), {"interface": "get_mesh", "clause": "raises"})
+                        continue
+                    except Exception as exc:  # noqa
+                        r.fail("%s raised %r" % (desc, exc), {"interface": "get_mesh", "clause": "raises"})
+                        continue
+                    ok = True
+                    for q, (value, disp, wts) in zip(P.call_parameters, mesh):
+                        want_value = pars.get(q.name, q.default)
+                        sp = decl.get(q.name)
+                        if sp is not None and q.name in active:
+                            sp = dict(sp, width=pars[q.name + "_pd"])
+                            ex, ew = _ref_dist(q, sp, float(want_value))
+                        elif q.polydisperse and q.type == "orientation":
+                            ex, ew = [0.0], [1.0]
+                        else:
+                            ex, ew = [float(want_value)], [1.0]
+                        if float(value) != float(want_value) or not _same(disp, ex) or not _same(wts, ew):
+                            r.fail("%s: parameter %s got value=%r dispersity=%s weights=%s; expected value=%r dispersity=%s weights=%s"
+                                   % (desc, q.name, value, np.asarray(disp)[:5], np.asarray(wts)[:5], want_value,
+                                      np.asarray(ex)[:5], np.asarray(ew)[:5]),
+                                   {"interface": "get_mesh", "clause": "per-parameter", "ptype": q.type})
+                            ok = False
+                            break
+                    if ok:
+                        r.ok(nt=bool(spec["npts"] > 1 and spec["width"] > 0), outcome="mesh:" + dim,
+                             branches=["iface-mesh", "iface-orientation" if p.type == "orientation" else "iface-size"])
+    return r
+
+
+def _run_sv(case, ctx):
+    """SasView-style object: every sequence of <= depth setParam operations, then every parameter's weights"""
+    import itertools
+    from sasmodels.sasview_model import _make_standard_model
+    r = R()
+    Model = _make_standard_model(case["model"])
+    info = Model._model_info
+    pars = [p for p in info.parameters.call_parameters if p.polydisperse][:4]
+    ops = [(p.name, f, v) for p in pars for (f, v) in SV_SPECS]
+    for depth in range(0, case["depth"] + 1):
+        for seq in itertools.product(ops, repeat=depth):
+            if depth == 3 and len({o[0] for o in seq}) < 2:
+                continue
+            m = Model()
+            decl = {p.name: {"width": 0.0, "npts": 35, "nsigmas": 3.0, "type": "gaussian", "value": p.default} for p in pars}
+            try:
+                for name, f, v in seq:
+                    if f == "value":
+                        val = decl[name]["value"] * v if decl[name]["value"] else v
+                        m.setParam(name, val)
+                        decl[name]["value"] = val
+                    else:
+                        m.setParam("%s.%s" % (name, f), v)
+                        decl[name][f] = v
+            except Exception as exc:  # noqa
+                r.fail("%s: setParam sequence %r raised %r" % (case["model"], seq, exc), {"interface": "sasview", "clause": "raises"})
+                continue
+            bad = None
+            for p in pars:
+                d = decl[p.name]
+                try:
+                    value, disp, wts = m._get_weights(p)
+                except (ValueError, ZeroDivisionError):
+                    if d["type"] in ("schulz", "lognormal") and p.type == "orientation" and d["width"] > 0 and d["npts"] > 1:
+                        continue
+                    raise
+                ex, ew = _ref_dist(p, d, float(d["value"]))
+                if float(value) != float(d["value"]) or not _same(disp, ex) or not _same(wts, ew):
+                    bad = (p.name, value, disp, wts, ex, ew)
+                    break
+            if bad:
+                r.fail("%s after setParam sequence %r: parameter %s has value=%r dispersity=%s weights=%s; "
+                       "its declared settings give dispersity=%s weights=%s"
+                       % (case["model"], seq, bad[0], bad[1], np.asarray(bad[2])[:5], np.asarray(bad[3])[:5],
+                          np.asarray(bad[4])[:5], np.asarray(bad[5])[:5]),
+                       {"interface": "sasview", "clause": "per-parameter"})
+            else:
+                r.ok(nt=depth >= 1, outcome="sv:%d" % depth, branches=["iface-sasview"], trans=depth + len(pars))
+    return r
+
+
 def run_case(case, ctx):
+    if case.get("kind") == "mesh":
+        return _run_mesh(case, ctx)
+    if case.get("kind") == "sv":
+        return _run_sv(case, ctx)
     from sasmodels import weights
     t, c, pd, mode = case["type"], case["centre"], case["pd"], case["mode"]
     relative = mode == "relative"
@@ -259,3 +405,6 @@ def finish(ctx, report):
     report.require("truncated", 100, "limits cut a distribution")
     report.require("single-point", 100, "degenerate / one-point distributions")
     report.require("empty", 10, "distribution cut to zero points")
+    report.require("iface-mesh", 100, "direct_model.get_mesh per-parameter distributions")
+    report.require("iface-orientation", 20, "absolute-width (orientation) parameters through get_mesh")
+    report.require("iface-sasview", 100, "SasView-style setParam sequences")
